@@ -5,7 +5,7 @@ Definition coll (s : hst) : bool := ph_eqb (phase s) PFinRejecting || ph_eqb (ph
 
 Record HInv (s : hst) : Prop := {
   hi_bg : bgrun s = true -> phase s = PRun;
-  hi_clean : forall m, In m (ms s) -> coll s = true -> bg_busy (cust s m) = false /\ cust s m <> CBuffer;
+  hi_clean : forall m, In m (ms s) -> coll s = true -> stale (cust s m) = false /\ (push s = false -> cust s m <> CTaking1);
   hi_rej : forall m, In m (ms s) -> phase s = PDone -> cust s m <> CRejecting;
   hi_und : forall m, In m (ms s) -> coll s = true -> late s = false -> cust s m <> CUndelivered;
   hi_ret : forall m, In m (ms s) -> cust s m = CReturning -> call s = true;
@@ -68,7 +68,7 @@ Proof. unfold setc. intros H. destruct (x =? m) eqn:E; [apply Z.eqb_eq in E; con
    after the collection at all or its target is harmless *)
 Lemma move_inv s m a b s' :
   HInv s -> move s m a b = Some s' ->
-  (coll s = true -> bg_busy b = false /\ b <> CBuffer /\ b <> CUndelivered) ->
+  (coll s = true -> stale b = false /\ (push s = false -> b <> CTaking1) /\ b <> CUndelivered) ->
   (phase s = PDone -> b <> CRejecting) ->
   b <> CReturning ->
   HInv s'.
@@ -102,14 +102,20 @@ Lemma not_coll_run s : phase s = PRun -> coll s = false.
 Proof. intros H. unfold coll. rewrite H. reflexivity. Qed.
 
 (* after the collection nothing is in a custody of the background task: moves out of those custodies cannot happen *)
-Lemma busy_not_coll s m c : HInv s -> In m (ms s) -> cust s m = c -> bg_busy c = true -> coll s = false.
+Lemma busy_not_coll s m c : HInv s -> In m (ms s) -> cust s m = c -> stale c = true -> coll s = false.
 Proof.
   intros I Hin Hc Hb. destruct (coll s) eqn:E; [|reflexivity].
   destruct (hi_clean s I m Hin E) as [H _]. rewrite Hc in H. congruence.
 Qed.
 
+Lemma taking1_not_coll s m : HInv s -> In m (ms s) -> cust s m = CTaking1 -> push s = false -> coll s = false.
+Proof.
+  intros I Hin Hc Hp. destruct (coll s) eqn:E; [|reflexivity].
+  destruct (hi_clean s I m Hin E) as [_ H]. exfalso. apply (H Hp Hc).
+Qed.
+
 Ltac mv_closed I H Hnc := eapply move_inv; [exact I | exact H | intros Hcoll; congruence | intros _; first [discriminate | match goal with |- (if ?c then _ else _) <> _ => destruct c; discriminate end] | first [discriminate | match goal with |- (if ?c then _ else _) <> _ => destruct c; discriminate end]].
-Ltac mv_open I H := eapply move_inv; [exact I | exact H | intros _; repeat split; try reflexivity; discriminate | intros _; discriminate | discriminate].
+Ltac mv_open I H := eapply move_inv; [exact I | exact H | intros _; repeat split; try reflexivity; try discriminate; intros; discriminate | intros _; discriminate | discriminate].
 
 Theorem HInv_step s e s' : HInv s -> hstep s e = Some s' -> HInv s'.
 Proof.
@@ -125,8 +131,9 @@ Proof.
     pose proof (busy_not_coll s m _ I Hin Hc eq_refl) as Hnc.
     mv_closed I H Hnc.
   - (* HTakeDone *)
+    destruct (push s) eqn:Ep; [discriminate|].
     pose proof (move_spec _ _ _ _ _ H) as [Hin [Hc _]].
-    pose proof (busy_not_coll s m _ I Hin Hc eq_refl) as Hnc.
+    pose proof (taking1_not_coll s m I Hin Hc Ep) as Hnc.
     mv_closed I H Hnc.
   - (* HDetails *)
     destruct (bgrun s) eqn:Eb; [|discriminate].
@@ -136,11 +143,22 @@ Proof.
     destruct (bgrun s) eqn:Eb; [|discriminate].
     pose proof (not_coll_run s (hi_bg s I Eb)) as Hnc.
     mv_closed I H Hnc.
-  - (* HPush *)
+  - (* HPushStart *)
     destruct (push s); cbn [andb] in H; [|discriminate].
-    destruct (ph_eqb (phase s) PRun) eqn:Ep; [|discriminate]. apply ph_eqb_eq in Ep.
-    pose proof (not_coll_run s Ep) as Hnc.
+    destruct (ph_eqb (phase s) PRun || ph_eqb (phase s) PFinWait) eqn:Ep; [|discriminate].
+    assert (Hnc : coll s = false).
+    { unfold coll. apply orb_true_iff in Ep as [Ep|Ep]; apply ph_eqb_eq in Ep; rewrite Ep; reflexivity. }
     mv_closed I H Hnc.
+  - (* HPushDone *)
+    destruct (push s); cbn [andb] in H; [|discriminate].
+    destruct (bgrun s) eqn:Eb; [|discriminate].
+    pose proof (not_coll_run s (hi_bg s I Eb)) as Hnc.
+    mv_closed I H Hnc.
+  - (* HBounce *)
+    destruct (push s); [|discriminate].
+    mv_open I H.
+  - (* HBounceDone *)
+    mv_open I H.
   - (* HNackDone *)
     mv_open I H.
   - (* HCallStart *)
@@ -154,7 +172,7 @@ Proof.
     constructor; cbn [with_cust ms cust bgrun call phase expd late push]; unfold coll; cbn [with_cust phase].
     + apply I.
     + intros x Hx Hcoll. destruct (Z.eq_dec x m) as [->|Hne].
-      * rewrite setc_same. destruct (expd s m); split; try reflexivity; discriminate.
+      * rewrite setc_same. destruct (expd s m); split; try reflexivity; intros; discriminate.
       * rewrite setc_other by exact Hne. apply (hi_clean s I x Hx Hcoll).
     + intros x Hx Hd. destruct (Z.eq_dec x m) as [->|Hne].
       * rewrite setc_same. destruct (expd s m); discriminate.
@@ -178,7 +196,7 @@ Proof.
     constructor; cbn [with_cust with_call ms cust bgrun call phase expd late push]; unfold coll; cbn [with_cust with_call phase].
     + apply I.
     + intros x Hx Hcoll. destruct (Z.eq_dec x m) as [->|Hne].
-      * rewrite setc_same. split; [reflexivity | discriminate].
+      * rewrite setc_same. split; [reflexivity | intros; discriminate].
       * rewrite setc_other by exact Hne. apply (hi_clean s I x Hx Hcoll).
     + intros x Hx Hd. destruct (Z.eq_dec x m) as [->|Hne].
       * rewrite setc_same. discriminate.
@@ -201,7 +219,7 @@ Proof.
     constructor; cbn [ms cust bgrun call phase expd late push]; unfold coll; cbn [phase].
     + apply I.
     + intros x Hx Hcoll. destruct (cu_eqb (cust s x) CReturning) eqn:Er.
-      * split; [reflexivity | discriminate].
+      * split; [reflexivity | intros; discriminate].
       * apply (hi_clean s I x Hx Hcoll).
     + intros x Hx Hd. destruct (cu_eqb (cust s x) CReturning) eqn:Er; [discriminate|]. apply (hi_rej s I x Hx Hd).
     + intros x Hx Hcoll Hl. apply orb_false_iff in Hl as [Hl1 Hl2].
@@ -223,12 +241,15 @@ Proof.
     + apply I.
   - (* HFinCollect *)
     destruct (ph_eqb (phase s) PFinWait) eqn:Ep; cbn [andb] in H; [|discriminate].
-    destruct (none_in s is_taking) eqn:En; [|discriminate]. inversion H; subst; clear H.
+    destruct (none_in s (is_c CTaking0)) eqn:En0; cbn [andb] in H; [|discriminate].
+    destruct (push s || none_in s (is_c CTaking1)) eqn:En; [|discriminate]. inversion H; subst; clear H.
     apply ph_eqb_eq in Ep.
     constructor; cbn [ms cust bgrun call phase expd late push]; unfold coll; cbn [phase].
     + intros Hb. pose proof (hi_bg s I Hb). congruence.
-    + intros x Hx _. pose proof (none_in_spec s _ En x Hx) as Ht.
-      destruct (cust s x) eqn:Ex; cbn; split; try reflexivity; try discriminate; cbn in Ht; discriminate.
+    + intros x Hx _. pose proof (none_in_spec s _ En0 x Hx) as Ht0. unfold is_c in Ht0. split.
+      * destruct (cust s x) eqn:Ex; cbn; try reflexivity; cbn in Ht0; discriminate.
+      * intros Hp. rewrite Hp in En. cbn in En. pose proof (none_in_spec s _ En x Hx) as Ht1. unfold is_c in Ht1.
+        destruct (cust s x) eqn:Ex; cbn; try discriminate; cbn in Ht1; discriminate.
     + intros; discriminate.
     + intros x Hx _ _. destruct (cust s x) eqn:Ex; cbn; discriminate.
     + intros x Hx Hr. destruct (cust s x) eqn:Ex; cbn in Hr; try discriminate. apply (hi_ret s I x Hx Ex).
@@ -261,13 +282,15 @@ Proof.
 Qed.
 
 (* once finish() has returned, every message of the run is back in its queue, dead-lettered, with the caller of consume(),
-   or on one of two ways that end there by themselves: a shielded nack on the wire, or a consume() call that is still in
-   progress and about to hand it to its caller.  The single exception is a consume() call cancelled, while it was handing
-   a message over, AFTER finish() had collected (`late`): that message stays with the finished consumer. *)
+   or on a way that ends there by itself: a shielded nack on the wire, a RabbitMQ delivery that is being bounced (or has just
+   been pushed and will be), or a consume() call that is still in progress and about to hand it to its caller.  The single
+   exception is a consume() call cancelled, while it was handing a message over, AFTER finish() had collected (`late`):
+   that message stays with the finished consumer. *)
 Theorem handover_finish_clean msgs expired pushing es s :
   hrun (hinit msgs expired pushing) es = Some s -> phase s = PDone ->
   forall m, In m msgs ->
-    cust s m = CQueue \/ cust s m = CDead \/ cust s m = CCaller \/ cust s m = CNacking \/
+    cust s m = CQueue \/ cust s m = CDead \/ cust s m = CCaller \/ cust s m = CNacking \/ cust s m = CBouncing \/
+    (cust s m = CTaking1 /\ push s = true) \/
     (cust s m = CReturning /\ call s = true) \/ (cust s m = CUndelivered /\ late s = true).
 Proof.
   intros H Hd m Hm.
@@ -277,22 +300,22 @@ Proof.
   assert (Hc : coll s = true) by (apply coll_phase; right; exact Hd).
   destruct (hi_clean s I m Hin Hc) as [Hb Hnb].
   pose proof (hi_rej s I m Hin Hd) as Hr.
-  destruct (cust s m) eqn:Ec; cbn in Hb; try discriminate; try congruence; auto 10.
-  - right; right; right; right; left. split; [reflexivity | apply (hi_ret s I m Hin Ec)].
-  - destruct (late s) eqn:El; [auto 10|]. exfalso. apply (hi_und s I m Hin Hc El Ec).
+  destruct (cust s m) eqn:Ec; cbn in Hb; try discriminate; try congruence; auto 12.
+  - destruct (push s) eqn:Ep; [auto 12|]. exfalso. apply (Hnb eq_refl eq_refl).
+  - do 6 right. left. split; [reflexivity | apply (hi_ret s I m Hin Ec)].
+  - destruct (late s) eqn:El; [auto 12|]. exfalso. apply (hi_und s I m Hin Hc El Ec).
 Qed.
 
 (* the worker's discipline: the queue loops (the callers of consume()) are cancelled and have ended before the consumers
-   are finished, so `late` stays false; with no call in progress and the nacks settled nothing is in flight but what the
-   caller received *)
+   are finished, so `late` stays false; with no call in progress and the nacks and bounces settled nothing is in flight
+   but what the caller received *)
 Corollary handover_quiescent msgs expired pushing es s :
   hrun (hinit msgs expired pushing) es = Some s -> phase s = PDone -> call s = false -> late s = false ->
-  (forall m, In m msgs -> cust s m <> CNacking) ->
+  (forall m, In m msgs -> cust s m <> CNacking /\ cust s m <> CBouncing /\ cust s m <> CTaking1) ->
   forall m, In m msgs -> cust s m = CQueue \/ cust s m = CDead \/ cust s m = CCaller.
 Proof.
-  intros H Hd Hcall Hl Hn m Hm.
-  destruct (handover_finish_clean _ _ _ _ _ H Hd m Hm) as [?|[?|[?|[?|[[_ ?]|[_ ?]]]]]]; auto; try congruence.
-  exfalso. apply (Hn m Hm). assumption.
+  intros H Hd Hcall Hl Hn m Hm. destruct (Hn m Hm) as [H1 [H2 H3]].
+  destruct (handover_finish_clean _ _ _ _ _ H Hd m Hm) as [?|[?|[?|[?|[?|[[? _]|[[_ ?]|[_ ?]]]]]]]]; auto; try congruence; contradiction.
 Qed.
 
 (* `late` can only be raised by the cancellation of a consume() call that holds a returned message after the collection *)
@@ -315,6 +338,21 @@ Proof.
   cbn. apply setc_same.
 Qed.
 
+(* ... and so does a bounce; a delivery that was pushed when the consumer is no longer consuming can only be bounced *)
+Theorem bouncing_progress s m : In m (ms s) -> cust s m = CBouncing -> exists s', hstep s (HBounceDone m) = Some s' /\ cust s' m = CQueue.
+Proof.
+  intros Hin Hc. unfold hstep, move. apply memz_In in Hin. rewrite Hin, Hc. cbn. eexists. split; [reflexivity|].
+  cbn. apply setc_same.
+Qed.
+
+Theorem pushed_after_finish_bounces s m : In m (ms s) -> push s = true -> cust s m = CTaking1 -> bgrun s = false ->
+  hstep s (HPushDone m) = None /\ hstep s (HTakeDone m) = None /\
+  exists s', hstep s (HBounce m) = Some s' /\ cust s' m = CBouncing.
+Proof.
+  intros Hin Hp Hc Hb. unfold hstep, move. apply memz_In in Hin. rewrite Hp, Hb, Hin, Hc. cbn.
+  split; [reflexivity|]. split; [reflexivity|]. eexists. split; [reflexivity|]. cbn. apply setc_same.
+Qed.
+
 (* a taken message the background task was cancelled over is collected: the transitions that a repaired defect lacked.
    (e1e0137: CTaken was not collected; aeff44b: CReturning + cancellation had no keeper) *)
 Example collect_covers_taken :
@@ -330,6 +368,14 @@ Example collect_waits_for_take :
 Proof. vm_compute. reflexivity. Qed.
 
 (* the exception is real in the model: a call cancelled after the collection leaves its message with the finished consumer *)
+(* RabbitMQ: a delivery cut by finish() bounces back, a delivery in the buffer and one kept undelivered are rejected *)
+Example push_collect_example :
+  exists s, hrun (hinit [1; 2; 3] [] true)
+              [HPushStart 1; HPushDone 1; HPushStart 2; HPushDone 2; HCallStart; HCallGet 1; HCancelCall; HPushStart 3; HFinStart;
+               HBounce 3; HFinCollect; HRejectDone 1; HRejectDone 2; HFinDone; HBounceDone 3] = Some s
+            /\ phase s = PDone /\ map (cust s) [1; 2; 3] = [CQueue; CQueue; CQueue] /\ late s = false.
+Proof. eexists. split; [vm_compute; reflexivity|]. vm_compute. repeat split. Qed.
+
 Theorem late_cancel_refuted :
   exists es s, hrun (hinit [1] [] false) es = Some s /\ phase s = PDone /\ call s = false /\ cust s 1 = CUndelivered /\ late s = true.
 Proof.
